@@ -226,6 +226,12 @@ def replay_coll3(groups):
                 got = pts_of(polys.intersect(g.Line(P(a), P(b))))
                 exp = [np.array(p) for r in recs for p in r["r"]["r"]["pts"]]
                 cmp("PolygonCollection.intersect(Line)/3D", {"polys": [r["r"]["poly"] for r in recs], "a": a, "b": b}, got, exp)
+                # the same polygons as a collection with two axes: [[P1, P1], [P2, P2]]
+                one = np.array([[list(v) + [1] for v in r["r"]["poly"]] for r in recs[:2]])
+                grid = g.PolygonCollection(np.stack([np.stack([one[0], one[0]]), np.stack([one[1], one[1]])]))
+                got2 = pts_of(grid.intersect(g.Line(P(a), P(b))))
+                exp2 = [np.array(p) for r in recs[:2] for p in r["r"]["r"]["pts"] for _ in (0, 1)]
+                cmp("PolygonCollection.intersect(Line)/3D/two-collection-axes", {"polys": [r["r"]["poly"] for r in recs[:2]], "a": a, "b": b}, got2, exp2)
         except Exception as e:  # noqa: BLE001
             out.append(dict(site=("Polygon.intersect(LineCollection)/3D" if kind == "lines" else "PolygonCollection.intersect(Line)/3D"),
                             stratum="collection", case={"count": len(recs)}, expected="points", observed=f"raised {type(e).__name__}: {e}"))
